@@ -1685,6 +1685,7 @@ fn main() {
                 || (f.class == "mul" && f.mnem == "imul" && (f.coq.starts_with("(IImul2") || f.coq.starts_with("(IImul3")) && o1.map_or(false, |d| regop(d) || memok(d)))
                 || ((f.class == "shift-imm" || f.class == "shift-cl") && ["shl", "shr", "sar", "rol", "ror"].contains(&f.mnem.as_str()) && o0.map_or(false, |d| regop(d) || memok(d)))
                 || f.coq.starts_with("(IJmpRel") || f.coq.starts_with("(IRet ") || f.coq == "IRet0" || f.coq.starts_with("(ILoop") || f.coq.starts_with("(IJcxz") || f.coq.starts_with("(IJcc")
+                || (f.class == "bt" && f.coq.starts_with("(IBt") && o0.map_or(false, |d| regop(d) || (memok(d) && o1.is_none())))
                 || (f.coq.starts_with("(IJmpInd") && o0.map_or(false, |d| regop(d) || memok(d)))
                 || (f.class == "unary" && ["inc", "dec", "neg", "not"].contains(&f.mnem.as_str()) && o0.map_or(false, |d| regop(d) || memok(d)))
                 || (f.class == "setcc" && o0.map_or(false, |d| regop(d)))
